@@ -350,11 +350,22 @@ async fn routing_work_gate_contract() {
 #[tokio::test]
 #[serial_test::serial]
 async fn rebroadcast_handles_each_unspent_output_once() {
+  for scenario in 0..2u64 {
     let mut t = TestManager::default();
-    t.initialize(100, 200_000_000_000_000).await;
     let gp = { t.config_lock.read().await.get_consensus_config().unwrap().genesis_period };
-    // blocks 2 ..= gp + 1: nothing is old enough to be rebroadcast yet
-    for k in 0..gp {
+    let mut first = 0;
+    if scenario == 0 {
+        // many untouched issuance outputs
+        t.initialize(100, 200_000_000_000_000).await;
+    } else {
+        // block 2 pays a stranger; the change output of that payment is spent by the following blocks, so the block
+        // leaving the window later holds a transaction whose FIRST output is spent and whose second is not
+        t.initialize(1, 1_000_000).await;
+        t.transfer_value_to_public_key(TestManager::generate_random_public_key(), 5_000, 120_000).await.unwrap();
+        first = 1;
+    }
+    // blocks up to gp + 1: nothing is old enough to be rebroadcast yet
+    for k in first..gp {
         let tip = t.get_latest_block().await;
         // a golden ticket in two of every three blocks keeps the 2-of-6 rule satisfied and the mining difficulty flat
         let mut b = t.create_block(tip.hash, tip.timestamp + 120_000, 1, 1000, 0, k % 2 == 0).await;
@@ -408,8 +419,87 @@ async fn rebroadcast_handles_each_unspent_output_once() {
                 }
             }
         }
-        if std::env::var("VERIF_TRACE").is_ok() { eprintln!("round {}: pruned block {} → {} rebroadcasts expected, {} found, multiplier {}", round, pruned_id, expected, atrs.len(), mult); }
-        if round == 0 { assert!(expected > 0, "scenario must exercise the rebroadcast path"); }
+        if std::env::var("VERIF_TRACE").is_ok() { eprintln!("scenario {} round {}: pruned block {} → {} rebroadcasts expected, {} found, multiplier {}", scenario, round, pruned_id, expected, atrs.len(), mult); }
+        if (scenario == 0 && round == 0) || (scenario == 1 && round == 1) { assert!(expected > 0, "scenario must exercise the rebroadcast path"); }
         if atrs.len() != expected { witness(format!("round {}: block {} carries {} rebroadcast transactions, the block leaving the window has {} unspent outputs worth rebroadcasting", round, new_block.id, atrs.len(), expected)); }
+    }
+  }
+}
+
+/// C08 (third sentence): the fee transaction of a block with a golden ticket pays only the ticket's solver and nodes that
+/// routed (or sent) transactions of the block being paid, and never more than that block collected in fees
+#[tokio::test]
+#[serial_test::serial]
+async fn fee_transaction_pays_solver_and_routers() {
+    use crate::core::util::crypto::generate_keys;
+    if std::env::var("VERIF_TRACE").is_ok() { let _ = pretty_env_logger::try_init(); }
+    let mut rng = Rng::from_env();
+    for round in 0..4 {
+        let mut t = TestManager::default();
+        t.initialize(20, 1_000_000_000).await;
+        let heartbeat = { t.config_lock.read().await.get_consensus_config().unwrap().heartbeat_interval };
+        let genesis = t.get_latest_block().await;
+        let block2 = t.create_block(genesis.hash, genesis.timestamp + 10 * heartbeat, 1, 1_000, 0, false).await;
+        let (h2, ts2) = (block2.hash, block2.timestamp);
+        assert!(matches!(t.add_block(block2).await, AddBlockResult::BlockAddedSuccessfully(..)));
+        // block 3 carries one fee-paying transaction routed sender → router → creator
+        let fee = 10_000 + rng.below(1_000_000);
+        let (public_key, private_key) = { let w = t.wallet_lock.read().await; (w.public_key, w.private_key) };
+        let (router_pk, router_sk) = generate_keys();
+        let ts3 = ts2 + 10 * heartbeat;
+        let block3 = {
+            let configs = t.config_lock.read().await;
+            let gp = configs.get_consensus_config().unwrap().genesis_period;
+            let latest = { t.blockchain_lock.read().await.blockring.get_latest_block_id() };
+            let mut tx = { let mut w = t.wallet_lock.write().await; Transaction::create(&mut w, public_key, 1_000, fee, false, None, latest, gp).unwrap() };
+            tx.sign(&private_key);
+            tx.add_hop(&private_key, &public_key, &router_pk);
+            tx.add_hop(&router_sk, &router_pk, &public_key);
+            tx.generate(&public_key, 0, 0);
+            let mut txs: AHashMap<SaitoSignature, Transaction> = Default::default();
+            txs.insert(tx.signature, tx);
+            let bc = t.blockchain_lock.read().await;
+            let mut b = Block::create(&mut txs, h2, std::ops::Deref::deref(&bc), ts3, &public_key, &private_key, None, std::ops::Deref::deref(&configs), &t.storage).await.unwrap();
+            b.generate().unwrap(); b.sign(&private_key);
+            b
+        };
+        let (h3, fees3) = (block3.hash, block3.total_fees);
+        let r3 = t.add_block(block3).await;
+        assert!(matches!(r3, AddBlockResult::BlockAddedSuccessfully(..)), "block 3 (fee-paying, routed) must be accepted: {:?}", r3);
+        assert!(fees3 > 0);
+        // block 4 holds a golden ticket for block 3: it pays block 3's fees out
+        // (built the way Mempool::bundle_block does: the golden ticket transaction is handed to Block::create)
+        let block4 = {
+            let difficulty = { t.blockchain_lock.read().await.get_block(&h3).unwrap().difficulty };
+            let gt = TestManager::create_golden_ticket(t.wallet_lock.clone(), h3, difficulty).await;
+            let mut gttx = crate::core::consensus::wallet::Wallet::create_golden_ticket_transaction(gt, &public_key, &private_key).await;
+            gttx.generate(&public_key, 0, 0);
+            let configs = t.config_lock.read().await;
+            let mut txs: AHashMap<SaitoSignature, Transaction> = Default::default();
+            let bc = t.blockchain_lock.read().await;
+            let mut b = Block::create(&mut txs, h3, std::ops::Deref::deref(&bc), ts3 + 10 * heartbeat, &public_key, &private_key, Some(gttx), std::ops::Deref::deref(&configs), &t.storage).await.unwrap();
+            b.generate().unwrap(); b.sign(&private_key);
+            b
+        };
+        let b4 = block4.clone();
+        let r4 = t.add_block(block4).await;
+        assert!(matches!(r4, AddBlockResult::BlockAddedSuccessfully(..)), "block 4 must be accepted: {:?}", r4);
+        let fee_txs: Vec<&Transaction> = b4.transactions.iter().filter(|tx| tx.transaction_type == TransactionType::Fee).collect();
+        let gt_tx = b4.transactions.iter().find(|tx| tx.transaction_type == TransactionType::GoldenTicket).expect("block 4 holds a golden ticket");
+        let solver = crate::core::consensus::golden_ticket::GoldenTicket::deserialize_from_net(&gt_tx.data).public_key;
+        let routers = [router_pk, public_key];
+        let mut paid: u128 = 0;
+        for ftx in fee_txs.iter() {
+            if !ftx.from.is_empty() && ftx.from.iter().any(|s| s.amount > 0) { witness(format!("round {}: the fee transaction has value-carrying inputs", round)); }
+            for o in ftx.to.iter() {
+                paid += o.amount as u128;
+                let ok = (o.slip_type == SlipType::MinerOutput && o.public_key == solver) || (o.slip_type == SlipType::RouterOutput && routers.contains(&o.public_key));
+                if !ok { witness(format!("round {}: fee transaction output of {} ({:?}) goes to a key that is neither the golden ticket's solver nor a node that routed or sent a transaction of the block being paid", round, o.amount, o.slip_type)); }
+            }
+        }
+        if fee_txs.len() > 1 { witness(format!("round {}: {} fee transactions in one block", round, fee_txs.len())); }
+        if paid > fees3 as u128 { witness(format!("round {}: the fee transaction pays out {} while the block being paid collected {} in fees", round, paid, fees3)); }
+        if std::env::var("VERIF_TRACE").is_ok() { eprintln!("round {}: fees {} paid out {} in {} outputs", round, fees3, paid, fee_txs.iter().map(|f| f.to.len()).sum::<usize>()); }
+        if round == 0 { assert!(paid > 0, "scenario must exercise the payout"); }
     }
 }
